@@ -423,6 +423,7 @@ func (d *Data) ingestBlock(ctx *datastore.VersionedCtx, chunkPt dvid.ChunkPoint3
 		}
 	}
 
+	dvid.VerifPoint("yield:annotation.sync.ingestBlock:before-commit")
 	if err := batch.Commit(); err != nil {
 		dvid.Criticalf("bad commit in annotations %q after delete block: %v\n", d.DataName(), err)
 		return
@@ -519,6 +520,7 @@ func (d *Data) mutateBlock(ctx *datastore.VersionedCtx, mutID uint64, chunkPt dv
 		}
 		batch.Put(tk, val)
 	}
+	dvid.VerifPoint("yield:annotation.sync.mutateBlock:before-commit")
 	if err := batch.Commit(); err != nil {
 		dvid.Criticalf("bad commit in annotations %q after delete block: %v\n", d.DataName(), err)
 		return
@@ -588,6 +590,7 @@ func (d *Data) mergeLabels(batcher storage.KeyValueBatcher, v dvid.VersionID, op
 			return fmt.Errorf("couldn't serialize annotation elements in instance %q: %v", d.DataName(), err)
 		}
 		batch.Put(targetTk, val)
+		dvid.VerifPoint("yield:annotation.sync.mergeLabels:before-commit")
 		if err := batch.Commit(); err != nil {
 			return fmt.Errorf("unable to commit merge for instance %q: %v", d.DataName(), err)
 		}
@@ -691,6 +694,7 @@ func (d *Data) cleaveLabels(batcher storage.KeyValueBatcher, v dvid.VersionID, o
 		batch.Delete(NewLabelTKey(op.Target))
 	}
 
+	dvid.VerifPoint("yield:annotation.sync.cleaveLabels:before-commit")
 	if err := batch.Commit(); err != nil {
 		return fmt.Errorf("bad commit in annotations %q after split: %v", d.DataName(), err)
 	}
